@@ -23,13 +23,13 @@ theorem C05_varint (n : Nat) (h : n < 2 ^ 64) (rest : Bytes) :
     unvarint (varint n ++ rest) = some (n, rest) := unvarint_varint h rest
 
 theorem C05_roundtrip_bitmap (b : BitmapMsg) (hwf : b.WF) (hsz : (encodeBitmap b).length < 2 ^ 64) :
-    decodeBitmap (encodeBitmap b) = .ok b := decodeBitmap_encode b hwf hsz
+    decodeBitmap (encodeBitmap b) = .ok b := decodeBitmapTop_encode b hwf hsz
 
 theorem C05_roundtrip_vlenarray (v : VLenArrayMsg) (hwf : v.WF) (hsz : (encodeVLenArray v).length < 2 ^ 64) :
-    decodeVLenArray (encodeVLenArray v) = .ok v := decodeVLenArray_encode v hwf hsz
+    decodeVLenArray (encodeVLenArray v) = .ok v := decodeVLenArrayTop_encode v hwf hsz
 
 theorem C05_roundtrip_bits (b : BitsMsg) (hwf : b.WF) (hsz : (encodeBits b).length < 2 ^ 64) :
-    decodeBits (encodeBits b) = .ok b := decodeBits_encode b hwf hsz
+    decodeBits (encodeBits b) = .ok b := decodeBitsTop_encode b hwf hsz
 
 theorem C05_roundtrip_array32 (a : Array32Msg) (hwf : a.WF) (hnf : a.NF)
     (hsz : (encodeArray32 a).length < 2 ^ 64) :
